@@ -1007,6 +1007,10 @@ func planC08(prop string, seed uint64, tier string, idx int) *Plan {
 			// (waiting out the grace period would be thousands of ticks)
 			k.GCGraceMs = 300 * k.GCFreqMs
 		}
+	} else if g.r.chance(25) {
+		// collection switched off: sessions expire all the same, and a repository with a session in use stays what it is
+		k.GCOff = true
+		g.p.Profile = "sessions (collection switched off)"
 	}
 	nb := g.r.between(1, 3)
 	var blobs []int
